@@ -298,6 +298,11 @@ def out1(units, R):
                         R.ob('OUT1', fn, node, 'write into the block %s allocated here' % b['n'], okf, whyf, key='freshwrite:%s' % b['n'])
                         continue
                     ok = b['d'] in good
+                    if not ok:
+                        okp, whyp = _own_buffer_write(u, fn, nd, node, base, b)
+                        if okp:
+                            R.ob('OUT1', fn, node, 'write through %s' % b['n'], True, whyp, key='write:%s' % b['n'])
+                            continue
                     R.ob('OUT1', fn, node, 'write through %s' % b['n'], ok, 'defined only from ensure() results' if ok else
                          '%s is not (only) an ensure() result: the write is not covered by a capacity request' % b['n'],
                          key='write:%s' % b['n'])
@@ -411,6 +416,48 @@ def _direct_write_has_room(u, fn, nd, node, dest, bufmem):
         return True, 'at most %d bytes, and the write is reached only where offset lies inside the buffer and length - offset >= %d was tested' % (need, need)
     if guarded_by(cfg, nd.id, inside_edge):
         return False, 'at most %d bytes are written, but no test on the way establishes that many bytes between offset and length' % need
+    return False, ''
+
+
+def _own_buffer_write(u, fn, nd, node, dest, bref):
+    """An entry point that sets a printbuffer P up over the block its caller handed in (P.buffer = B; P.length = N) may store one
+    byte at B[P.offset] where it has tested P.offset < P.length: that byte lies inside the caller's block."""
+    if bref.get('dk') != 'param' or node.get('k') != 'bin':
+        return False, ''
+    lhs = strip_casts(node['l'])
+    if lhs.get('k') != 'idx' or strip_casts(lhs['b']).get('d') != bref['d']:
+        return False, ''
+    idx = strip_casts(lhs['i'])
+    if not (idx.get('k') == 'mem' and idx['f'] == 'offset' and not idx.get('arrow') and strip_casts(idx['b']).get('k') == 'ref'):
+        return False, ''
+    P = strip_casts(idx['b'])
+    # P.buffer is B, P.length is a parameter, both set once
+    bufsets = [a_ for a_ in assignments(fn) if strip_casts(a_['l']).get('k') == 'mem' and strip_casts(a_['l'])['f'] == 'buffer' and
+               strip_casts(strip_casts(a_['l'])['b']).get('d') == P['d']]
+    lensets = [a_ for a_ in assignments(fn) if strip_casts(a_['l']).get('k') == 'mem' and strip_casts(a_['l'])['f'] == 'length' and
+               strip_casts(strip_casts(a_['l'])['b']).get('d') == P['d']]
+    if len(bufsets) != 1 or len(lensets) != 1 or strip_casts(bufsets[0]['r']).get('d') != bref['d'] or \
+            not any(x.get('k') == 'ref' and x.get('dk') == 'param' for x in walk(lensets[0]['r'])):
+        return False, ''
+    cfg = fn.cfg()
+
+    def inside(nn, l):
+        if nn.kind != 'branch' or l is None or l[0] not in ('T', 'F') or nn.expr is None:
+            return False
+        e = strip_casts(nn.expr)
+        if e.get('k') != 'bin' or e['op'] not in ('<', '>', '<=', '>='):
+            return False
+
+        def fld(x, f):
+            x = strip_casts(x)
+            return x.get('k') == 'mem' and x['f'] == f and strip_casts(x['b']).get('d') == P['d']
+        if fld(e['l'], 'offset') and fld(e['r'], 'length'):
+            return (e['op'] == '<' and l[0] == 'T') or (e['op'] == '>=' and l[0] == 'F')
+        if fld(e['l'], 'length') and fld(e['r'], 'offset'):
+            return (e['op'] == '>' and l[0] == 'T') or (e['op'] == '<=' and l[0] == 'F')
+        return False
+    if guarded_by(cfg, nd.id, inside):
+        return True, 'one byte at %s.offset of the caller\'s own block, behind a test of %s.offset < %s.length' % (P['n'], P['n'], P['n'])
     return False, ''
 
 
@@ -1312,7 +1359,7 @@ def _out8_pass(u, fam, famnames, leaves_dirty, R):
                 flagvars.add(e_['d'])
 
         def refine_flag(nd, l, st):
-            if nd.kind != 'branch' or l is None or l[0] not in ('T', 'F') or nd.expr is None or not flagvars:
+            if nd.kind != 'branch' or l is None or l[0] not in ('T', 'F') or nd.expr is None:
                 return st
             e_ = strip_casts(nd.expr)
             zero_on = 'F'
@@ -1324,6 +1371,9 @@ def _out8_pass(u, fam, famnames, leaves_dirty, R):
                 if pc_[1] == '==':
                     zero_on = 'T' if zero_on == 'F' else 'F'
                 e_ = strip_casts(pc_[0])
+            if e_.get('k') == 'call' and callee_name(e_) in famnames and callee_name(e_) not in ('ensure', 'update_offset') and l[0] == zero_on:
+                # the printer failed: what it left behind its offset is abandoned, the offset itself still ends the complete text
+                return False
             if e_.get('k') == 'ref' and e_.get('d') in flagvars and l[0] == zero_on:
                 # only when the flag is not assigned again before it is returned
                 tgt = [y for (y, l2) in cfg.succ[nd.id] if l2 is l or l2 == l]
